@@ -1504,7 +1504,7 @@ def rule_converters_convert_members(ctx, rep, rid: str) -> None:
             if not (isinstance(branch, ast.If) and isinstance(branch.test, ast.Call) and norm(branch.test.func) == "isinstance" and len(branch.test.args) == 2 and norm(branch.test.args[1]) in ("list", "dict", "(list, tuple)", "tuple")):
                 continue
             src = norm(branch.test.args[0])
-            makes = [x for s_ in branch.body for x in ast.walk(s_) if isinstance(x, ast.Call) and call_name(x) in ("JSArray", "JSObject")]
+            makes = [x for s_ in branch.body for x in ast.walk(s_) if isinstance(x, ast.Call) and (call_name(x) in ("JSArray", "JSObject") or any(isinstance(a, ast.Starred) for a in x.args))]
             if not makes:
                 continue
             # members stored
@@ -1514,6 +1514,12 @@ def rule_converters_convert_members(ctx, rep, rid: str) -> None:
                     if isinstance(x, ast.Assign) and any(isinstance(t, ast.Attribute) and t.attr == "_elements" for t in x.targets) and isinstance(x.value, ast.ListComp) and src in norm(x.value.generators[0].iter):
                         lv = {y.id for y in ast.walk(x.value.generators[0].target) if isinstance(y, ast.Name)}
                         stores.append((x.value.elt, x, lv))
+                    if isinstance(x, ast.Call) and any(isinstance(a, ast.Starred) and isinstance(a.value, (ast.ListComp, ast.GeneratorExp)) and src in norm(a.value.generators[0].iter) for a in x.args):
+                        # members handed to a constructing call as *[conv(m) for m in src]
+                        for a in x.args:
+                            if isinstance(a, ast.Starred) and isinstance(a.value, (ast.ListComp, ast.GeneratorExp)):
+                                lv = {y.id for y in ast.walk(a.value.generators[0].target) if isinstance(y, ast.Name)}
+                                stores.append((a.value.elt, x, lv))
                     if isinstance(x, ast.For) and src in norm(x.iter):
                         lv = {y.id for y in ast.walk(x.target) if isinstance(y, ast.Name)}
                         for c in ast.walk(x):
@@ -1752,3 +1758,50 @@ def rule_embedder_values_stay_outside(ctx, rep, rid: str) -> None:
                 tgt = next(t for t in cs.targets if id(t) in pv)
                 rep.bad(rid, key, f"{f.qual}, which script code can reach, uses the result of {tgt.qual} ({pv[id(tgt)][1]}): that value was converted for the embedder, so the script receives Python lists, dicts and None where it expects arrays, objects and null (typeof says 'undefined', property reads give undefined)", f"{f.module.rel}:{c.lineno}")
     rep.ok(rid, "embedder-api", {"python_valued": sorted(f.qual for f, _ in pv.values()), "script_reachable_uses": n})
+
+
+# ---- the converters build containers with the object model, not with the script's constructors ----------------
+def rule_converters_use_object_model(ctx, rep, rid: str) -> None:
+    """Array(3) is an array of length 3, Array(3, 4) one with two elements: a built-in that scripts call interprets its
+    arguments by the script's conventions (counts them, converts them).  A boundary converter that hands converted
+    members to such a built-in as positional arguments inherits those conventions: a list with a single number
+    becomes an array of that length."""
+    rep.rule(rid, "the branches of the host-to-script converters that build arrays and objects use the object model's own classes and methods (JSArray, JSObject, push, set, _elements); they never call a function that is also installed as a script-callable built-in (a constructor or method whose argument conventions are those of a script call) with the members as arguments", floor=1)
+    natives = ctx.cg.natives
+    # attributes that hold a native: self.X = <name of a function that is registered as a built-in>
+    native_attrs: Dict[str, Func] = {}
+    for f in ctx.tree.funcs:
+        if isinstance(f.node, ast.Lambda):
+            continue
+        for a in f.own_nodes():
+            if isinstance(a, ast.Assign) and isinstance(a.value, ast.Name):
+                g = f.children.get(a.value.id)
+                if g is not None and id(g) in natives:
+                    for t in a.targets:
+                        if isinstance(t, ast.Attribute) and norm(t.value) in ("self", "ctx"):
+                            native_attrs[t.attr] = g
+    n = 0
+    for f in ctx.tree.funcs:
+        if isinstance(f.node, ast.Lambda) or f.module.name != "context":
+            continue
+        for branch in f.own_nodes():
+            if not (isinstance(branch, ast.If) and isinstance(branch.test, ast.Call) and norm(branch.test.func) == "isinstance" and len(branch.test.args) == 2 and norm(branch.test.args[1]) in ("list", "dict", "(list, tuple)", "tuple")):
+                continue
+            n += 1
+            key = f"{f.qual}:{norm(branch.test.args[1])}-branch"
+            bad = None
+            for s_ in branch.body:
+                for c in ast.walk(s_):
+                    if isinstance(c, ast.Call) and isinstance(c.func, ast.Attribute) and norm(c.func.value) in ("self", "ctx") and c.func.attr in native_attrs and c.args:
+                        bad = (c, native_attrs[c.func.attr])
+                    if isinstance(c, ast.Call):
+                        cs = ctx.cg.site_of_call.get(id(c))
+                        if cs is not None and cs.kind == "resolved" and cs.targets and all(id(t) in natives for t in cs.targets) and c.args:
+                            bad = (c, cs.targets[0])
+            if bad is None:
+                rep.ok(rid, key)
+            else:
+                c, g = bad
+                rep.bad(rid, key, f"{f.qual} builds the script value with {short(c, 50)}, and {g.qual} is the built-in `{natives[id(g)][1]}` that scripts call: it interprets its arguments as a script call does (a single numeric argument of Array is a length), so some host values convert to something else ([3] becomes an array of three undefined)", f"{f.module.rel}:{c.lineno}")
+    if n == 0:
+        raise AnalysisError(f"{rid}: no list/dict branch of a host-to-script converter found")
